@@ -198,6 +198,9 @@ class NdiStub:
         self.calls.append(rec)
         if hasattr(coordinates, "_sampled_result"):
             return coordinates._sampled_result(rec)
+        exact = _lookup_at_integer_nodes(input, coordinates, cval)
+        if exact is not None:
+            return exact
         return rec
 
     def spline_filter(self, input, order=3, output=np.float64, mode="mirror"):
@@ -237,6 +240,38 @@ class HybridNdi:
         from scipy import ndimage
 
         return ndimage.map_coordinates(input, coordinates, *a, **k)
+
+
+def _lookup_at_integer_nodes(input, coordinates, cval):
+    """spline interpolation reproduces the samples at the nodes: if every coordinate is a concrete integer inside the array,
+    map_coordinates(input, coords) = input[coords] (any order; outside -> cval for mode='constant')"""
+    try:
+        c = np.asarray(A._obj(A.to_symarray(coordinates)) if not isinstance(coordinates, np.ndarray) else A._obj(coordinates))
+    except Exception:
+        return None
+    if c.ndim < 2 or is_symbolic_any(c):
+        return None
+    inp = A._obj(A.to_symarray(input))
+    if c.shape[0] != inp.ndim:
+        return None
+    out = np.empty(c.shape[1:], dtype=object)
+    for idx in np.ndindex(c.shape[1:]):
+        pt = [c[(a,) + idx] for a in range(inp.ndim)]
+        try:
+            ipt = [int(v) for v in pt]
+        except Exception:
+            return None
+        if any(float(v) != float(i) for v, i in zip(pt, ipt)):
+            return None
+        if all(0 <= i < n for i, n in zip(ipt, inp.shape)):
+            out[idx] = inp[tuple(ipt)]
+        else:
+            out[idx] = cval
+    return out.view(A.SymArray)
+
+
+def is_symbolic_any(arr):
+    return any(is_symbolic(v) for v in np.asarray(arr, dtype=object).reshape(-1))
 
 
 def make_backend(api_module, np_shim, ndi=None, fft=None):
